@@ -103,9 +103,10 @@ func fnExec(ctx *cmdContext, args map[string]any) (output respValue, err error) 
 
 	// a queued command that needs every database (FLUSHALL) takes the other
 	// database locks while this one is held; the global lock has to come first
+	// (so does a queued SELECT: the commands after it own a second database)
 	needsGlobal := ctx.cs.watchesOtherDb(ctx.dsc.ds)
 	for _, cc := range *ctx.cs.cmdQueue {
-		if cc.cmdToken == "flushall" {
+		if cc.cmdToken == "flushall" || cc.cmdToken == "select" {
 			needsGlobal = true
 			break
 		}
@@ -135,10 +136,25 @@ func fnExec(ctx *cmdContext, args map[string]any) (output respValue, err error) 
 
 	// process all of the queued commands, regardless if one errors
 	results := make([]any, 0, len(*ctx.cs.cmdQueue))
+	owned := map[*dataStore]*dataStoreCommand{ctx.dsc.ds: ctx.dsc}
 	for _, cc := range *ctx.cs.cmdQueue {
-		// use the multi command id instead of each queued command's id,
+		// a queued SELECT takes effect when it runs: the commands after it work
+		// on the database selected then (they were prepared on the one selected
+		// while queueing), which this EXEC owns as well from there on
+		ds := ctx.cs.ds
+		owner, isOwned := owned[ds]
+		if !isOwned {
+			owner = ds.newDataStoreCommand()
+			owner.acquireExclusive()
+			defer owner.releaseExclusive()
+			owned[ds] = owner
+		}
+		if cc.dsc.ds != ds {
+			cc.dsc = ds.newDataStoreCommand()
+		}
+		// use the owner's command id instead of each queued command's id,
 		// so that the commands won't try to acquire a lock that we already own
-		cc.dsc.id = ctx.dsc.id
+		cc.dsc.id = owner.id
 		results = append(results, ctx.cd.dispatchHandler(cc))
 	}
 
